@@ -52,6 +52,7 @@ func topologicalSortTypes(env *Environment, errorSink *validation.ErrorSink) *En
 						}
 
 						errorSink.Add(validationError(parent, "there is a reference cycle, which is not supported, within namespace '%s': %s", ns.Name, strings.Join(path, " -> ")))
+						env.hasReferenceCycles = true
 					}
 					return
 				}
